@@ -28,6 +28,19 @@ try:
 except Exception as _ex:
     WORD_KERNELS_STATUS = "unparsed generator-failed: %s" % str(_ex)[:200]
     WORD_KERNELS_DETAIL = []
+# coq/gen/MulBodiesGen.v (round 5): the BODIES of the multiplication stack above the loop kernels (helpers chunk loop, simple /
+# karatsuba / toom_3 wrappers, the Karatsuba step, the dispatch of mul/mod.rs, multiply, sqr::sqr, the four size constants and
+# a generated fuel knot), translated by tools/translate_c01_r5.py on every run; Int/MulBodiesGenProofs.v + Int/MulBodiesKnot.v
+# prove them equal to the hand models.  What the translator cannot read (today: toom_3::add_signed_mul_same_len) is reported
+# `unparsed`, keeps its last good copy / stays a parameter, and is never an alarm.
+MUL_BODIES_EXPECTED_UNPARSED = {"toom_3_add_signed_mul_same_len"}
+try:
+    import translate_c01_r5
+    MUL_BODIES_STATUS = translate_c01_r5.generate(core.REPO, os.path.join(core.COQ, "gen"))
+    MUL_BODIES_DETAIL = list(translate_c01_r5.LAST_RESULTS)
+except Exception as _ex:
+    MUL_BODIES_STATUS = "unparsed generator-failed: %s" % str(_ex)[:200]
+    MUL_BODIES_DETAIL = []
 
 
 def extra_phase(tier, seed, exes, oracle):
@@ -38,11 +51,25 @@ def extra_phase(tier, seed, exes, oracle):
             "FRAGMENT:WordKernelsGen:functions_ok": len([1 for _, st in WORD_KERNELS_DETAIL if st == "ok"])}
     for n in bad:
         hist["FRAGMENT:WordKernelsGen:unparsed:" + n] = 1
+    mb = MUL_BODIES_STATUS.split(" ", 1)[0]
+    mb_bad = [n for n, st in MUL_BODIES_DETAIL if st != "ok"]
+    hist["FRAGMENT:MulBodiesGen:" + mb] = 1
+    hist["FRAGMENT:MulBodiesGen:functions_ok"] = len([1 for _, st in MUL_BODIES_DETAIL if st == "ok"])
+    for n in mb_bad:
+        hist["FRAGMENT:MulBodiesGen:unparsed:" + n] = 1
+    mb_clean = mb == "ok" and set(mb_bad) <= MUL_BODIES_EXPECTED_UNPARSED
     return {
         "evaluations": 0,
         "hist": hist,
         "nontrivial": [],
-        "samples": [{"fragment": "coq/gen/WordKernelsGen.v (tools/translate_c01_r4.py from integer/src/math.rs, add.rs, mul/mod.rs, mul/simple.rs)",
+        "samples": [{"fragment": "coq/gen/MulBodiesGen.v (tools/translate_c01_r5.py from integer/src/mul/helpers.rs, simple.rs, karatsuba.rs, "
+                                 "toom_3.rs, mod.rs, sqr/mod.rs)",
+                     "status": MUL_BODIES_STATUS,
+                     "functions": ", ".join("%s:%s" % (n, st.split(" ", 1)[0]) for n, st in MUL_BODIES_DETAIL)[:1500],
+                     "tied_by": "C01_gen_karatsuba_step, C01_gen_chunk_loop, C01_gen_*_dispatch_level, C01_gen_stack* (generated = hand model) "
+                                "+ ops kmul / kmul32 / kmul64 / ksqr of the run evaluate the generated stack (answer gen-bodies-differ on a mismatch)"
+                                if mb_clean else "unparsed functions keep their last good copy (STALE); correspondence run only for them"},
+                    {"fragment": "coq/gen/WordKernelsGen.v (tools/translate_c01_r4.py from integer/src/math.rs, add.rs, mul/mod.rs, mul/simple.rs)",
                      "status": WORD_KERNELS_STATUS,
                      "functions": ", ".join("%s:%s" % (n, st.split(" ", 1)[0]) for n, st in WORD_KERNELS_DETAIL)[:1500],
                      "tied_by": "C01_gen_* (generated = hand model, all inputs, all w) + ops wk / kmul of the run at w = 64 and w = 32"
@@ -76,7 +103,7 @@ HARNESS_BIN = "c01"
 NCASES = {"quick": 8000, "thorough": 90000}
 CASE_TIMEOUT = {"quick": 30, "thorough": 120}
 
-LEVEL_TEXT = ("Machine-checked Coq theorems (89 pinned in coq/props/C01.v, no axioms) over word lists of an arbitrary word size "
+LEVEL_TEXT = ("Machine-checked Coq theorems (99 pinned in coq/props/C01.v, no axioms) over word lists of an arbitrary word size "
               "w >= 8 and for ALL operand lengths. (a) Word-level, proved = Z arithmetic: the carry/borrow kernels of add.rs, the "
               "word/double-word multipliers, the schoolbook rows (carry_plus_max trick), helpers::add_signed_mul_split_into_chunks, "
               "Karatsuba with its deferred carries, Toom-3 ENTIRELY at word level (slices of c, scratch buffers t1/t2, evaluation at "
@@ -95,7 +122,18 @@ LEVEL_TEXT = ("Machine-checked Coq theorems (89 pinned in coq/props/C01.v, no ax
               "every input (the schoolbook rows, which index into c, whenever they stay inside c): all contracts transfer to the "
               "generated code (restated: add/sub_in_place, sub_in_place_with_sign, mul_word/dword_in_place, the schoolbook kernel), "
               "and the 20 kernels the run drives meet the integer specification the oracle judges with (result = r mod B^n, carry = "
-              "r div B^n) inside their contract boundary. An edited loop body breaks a proof obligation. (b) Scratch memory: consumed "
+              "r div B^n) inside their contract boundary. An edited loop body breaks a proof obligation. (a'') ROUND 5 - THE BODIES ABOVE "
+              "THE KERNELS ARE REGENERATED TOO: tools/translate_c01_r5.py translates helpers::add_signed_mul_split_into_chunks (the "
+              "while loop that re-slices a and c, the code after it, the tail swap), simple / karatsuba / toom_3 ::add_signed_mul, "
+              "karatsuba::add_signed_mul_same_len (three products, deferred carries), the dispatch mul::add_signed_mul(_same_len) "
+              "(operand swap, thresholds), mul::multiply, sqr::sqr and the four size constants into coq/gen/MulBodiesGen.v (result "
+              "monad, recursion through function parameters, a generated fuel knot). Proved: Karatsuba step and same-length "
+              "dispatch = hand model for every w and EVERY word list; chunk loop, general dispatch, the four hook entry points, "
+              "multiply, sqr = hand model inside the length contract len c = len a + len b the code debug_asserts (needs: the "
+              "schoolbook chunk, the Karatsuba step and the Toom-3 step keep the length of c - proved for arbitrary word lists); "
+              "the hand dispatchers satisfy the generated recursion equations level by level and the generated knot equals them. "
+              "toom_3::add_signed_mul_same_len is NOT regenerated (uninitialised `let`, calls outside the kernel table: reported "
+              "unparsed) and stays the hand model. (b) Scratch memory: consumed "
               "<= the regenerated memory_requirement formulas for every length and threshold pair. (c) Operators: Small/Large arms "
               "of + - * sqr cubic over the word-level kernels return exactly a+b, a-b (Panic NegativeUBig exactly when a<b), a*b, "
               "a^2, a^3, canonical - round 4: mul_large_dword's power-of-two shortcut through the WORD-LEVEL shl_in_place of C09 "
@@ -108,19 +146,21 @@ LEVEL_TEXT = ("Machine-checked Coq theorems (89 pinned in coq/props/C01.v, no ax
               "(wider than a double word: little-endian bytes, from_le_bytes_large chunk by chunk = C07's model of from_le_bytes, "
               "canonical forms are unique, so it IS the by-value conversion the theorems use). IBig sign tables regenerated and proved.")
 LEVEL_NOTE = ("Trusted: Coq kernel, translators (thresholds, sign tables, memory formulas / pow capacities; the loop-to-fold translator "
-              "tools/translate_c01_r4.py: what it renders wrongly shows up as a failed equality with the hand model or as asis=diff "
-              "in the run, unless the hand model makes the same mistake AND the run misses it), extraction + FastZ.v, zarith, "
+              "tools/translate_c01_r4.py and the body translator tools/translate_c01_r5.py: what they render wrongly shows up as a "
+              "failed equality with the hand model or as asis=diff in the run, unless the hand model makes the same mistake AND "
+              "the run misses it; conventions of r5: `&mut x[a..b]` passed down = slice / splice, `x = &mut x[k..]` freezes the "
+              "prefix, memory arguments dropped, allocate_slice_fill = repeat 0, debug_assert_zero! = assert_zero), extraction + FastZ.v, zarith, "
               "harness. Atoms of the generated code: overflowing/wrapping ops, split_dword / double_word / extend_word as their "
               "mathematical definitions; + - * << on Word / DoubleWord as exact integer operations (an overflow would be a panic in "
               "the checked build); arch::add::add_with_carry / sub_with_borrow = the models tied by C19. Assumed with C02: "
               "num-modular's div_rem_2by1 contract (Toom-3's division by 6). Not proved: that the hand-written models of the "
-              "recursive multipliers, of the operator arms and of pow.rs transcribe the Rust (measured per case at w = 64 AND at "
+              "Toom-3 step, of the operator arms (add_ops.rs / mul_ops.rs control flow) and of pow.rs transcribe the Rust (measured per case at w = 64 AND at "
               "w = 32 against the force_bits=\"32\" build: public operators, multipliers through verif_hooks::mul_kernel with the "
               "32-bit thresholds in words of 32 bits, every add.rs / mul/mod.rs kernel through verif_hooks::word_kernel, scratch "
               "consumption against the measured minimum). By value only: Buffer capacity growth policy and the unsafe Repr "
               "transmute (C17); pow of a double-word base with exp >= 2^63 (`2 * exp` capacity: the allocation panics long "
               "before).")
-TECHNIQUE = "Coq proof of as-is word-level models = Z specification; loop kernels regenerated from the Rust source and proved equal to the models; extracted-model correspondence run on a 64-bit and a 32-bit build incl. kernel, word-kernel and scratch hooks"
+TECHNIQUE = "Coq proof of as-is word-level models = Z specification; loop kernels AND the multiplication bodies above them (chunk loop, Karatsuba, dispatch, sqr) regenerated from the Rust source and proved equal to the models; extracted-model correspondence run on a 64-bit and a 32-bit build incl. kernel, word-kernel and scratch hooks"
 RULE = ("every case runs on the 64-bit and on the force_bits=32 build (the oracle runs the word-level models at the word size of the "
         "answer); size classes are counted in words of 64 or 32 bits (chosen per case). cases = operation x call form "
         "{vv,vr,rv,rr,av,ar} x operand word counts from {0,1,2,3,4,5} u {T-1,T,T+1 for T in 24 (schoolbook), 30 (squaring), 192 "
@@ -141,7 +181,9 @@ RULE = ("every case runs on the 64-bit and on the force_bits=32 build (the oracl
 EXPLANATION = ("Theorems (coq/props/C01.v): every kernel of add.rs/mul/*.rs/sqr modelled over word lists satisfies its value contract "
                "c' + carry*B^n = c + sign*a*b for all inputs, all lengths and all word sizes; the loop kernels are RE-TRANSLATED from "
                "the Rust source on every run and proved equal to those models (an edited loop body breaks a proof obligation; a "
-               "function the translator cannot read keeps its last good copy and is reported, never an alarm); scratch memory "
+               "function the translator cannot read keeps its last good copy and is reported, never an alarm); round 5: so are the "
+               "bodies above them - chunk loop, Karatsuba step, size dispatch, multiply, sqr - with a generated fuel knot (only the "
+               "Toom-3 step stays hand-written); scratch memory "
                "consumed <= reserved; the Small/Large operator arms of + - * sqr cubic pow (with buffer capacities and the checked "
                "shift count) and the primitive forms equal Z arithmetic; the regenerated sign tables equal Z.add/Z.sub/Z.mul. Tie to "
                "the code: thresholds, tables, memory formulas, pow capacities and loop kernels re-translated from the source on every "
@@ -153,12 +195,13 @@ TRUSTED_BASE = [
     "tools/translate.py renders THRESHOLD_SIMPLE/THRESHOLD_KARATSUBA/MIN_LEN/CHUNK_LEN/MAX_LEN_SIMPLE and impl_ibig_add/sub/mul faithfully (add->Z.add, sub_signed->Z.sub, with_sign->signed)",
     "tools/translate_c01_r3.py renders math::ceil_log2, memory_requirement_up_to/_exact (mul, karatsuba, toom_3, sqr) and the Buffer::allocate / MemoryAllocation::new amounts of pow.rs into coq/gen/MulMemory.v, counting layouts in words; bit_len is a hand-written atom (Z.log2 + 1)",
     "tools/translate_c01_r4.py renders the loop kernels (for over iter_mut / zip / enumerate / chunks_exact_mut(2), while with fuel, early return, split_first_mut / split_at_mut views, `&mut x[a..b]` arguments) into coq/gen/WordKernelsGen.v; its atoms (Int/WordPrims.v: overflowing_add/sub, wrapping ops, split_dword, double_word, to_sign_magnitude, is_empty; + - * << | on words as exact integer operations; `.unwrap()` of an empty slice = unreachable default) are hand-written",
+    "tools/translate_c01_r5.py renders the bodies of mul/helpers.rs, simple.rs, karatsuba.rs, toom_3.rs (wrapper only), mul/mod.rs (dispatch, multiply) and sqr/mod.rs into coq/gen/MulBodiesGen.v; conventions: a `&mut x[a..b]` argument is read as slice a (b-a) x and written back with splice, `x = &mut x[k..]` in the loop freezes firstn k x, `memory` arguments are dropped, allocate_slice_fill(n, 0) = repeat 0 n, allocate_slice_copy(x) = x, debug_assert_zero!(e) = assert_zero e, other debug_assert!s dropped; initial fuel of the while loop = length of the slice in its condition; the fuel knot at the end is a fixed template",
     "arch::add::add_with_carry / sub_with_borrow are atoms of the generated kernels (Int/RingAdd.v; tied to arch/generic/add.rs by C19_arch_add_with_carry / _sub_with_borrow; the x86_64 build uses the intrinsics version, tied by the run)",
     "num-modular Normalized2by1Divisor::div_rem_2by1 meets its contract (hypothesis shared with C02; used by Toom-3's division by 6)",
     "extraction: ExtrOcamlBasic + ExtrOcamlZBigInt + coq/extract/FastZ.v; Z in the oracle is zarith/GMP (the independent big-integer implementation the property asks for)",
     "OCaml 4.13.1 + zarith 1.12, oracle/common.ml, oracle/driver_c01.ml; Rust harness harness/src/bin/c01.rs (both builds)",
     "hooks dashu_int::verif_hooks::{mul_kernel, mul_kernel_scratch, mul_scratch_words, sqr_kernel, word_kernel, MUL_PARAMS, WORD_BITS, repr_layout_*} (cfg(dashu_verif), add-only) call the internal kernels unchanged",
-    "the hand-written word-level models of the recursive multipliers (helpers, Karatsuba, Toom-3, dispatch, sqr), of the operator arms and of pow.rs in coq/theories/Int/Ring*.v (and the C02/C05/C07/C09 models they call: DivWordModel.div_by_word/shr_in_place, ReprOrdModel.cmp_in_place, IoSpec.le_value/le_bytes_n, BitsKernels.shl_in_place/repr_shl/shr_ref/set_bit/trailing_zeros) transcribe the Rust; fidelity is measured by the correspondence run on both builds, not proved",
+    "the hand-written word-level models of the Toom-3 step (toom_3::add_signed_mul_same_len), of sqr::simple::square, of the operator arms and of pow.rs in coq/theories/Int/Ring*.v (and the C02/C05/C07/C09 models they call: DivWordModel.div_by_word/shr_in_place, ReprOrdModel.cmp_in_place, IoSpec.le_value/le_bytes_n, BitsKernels.shl_in_place/repr_shl/shr_ref/set_bit/trailing_zeros) transcribe the Rust; fidelity is measured by the correspondence run on both builds, not proved",
 ]
 ASSUMPTIONS = [
     "UBig::from_words / as_words / IBig::from_parts / as_sign_words transport values faithfully (used by the harness instead of any parser)",
